@@ -117,6 +117,9 @@ def enumerate_cases(tier, seed):
                     for pos in ("mid1", "mid4"):
                         cases.append({"program": program, "input": inp, "prior": prior, "rng": seed, "inplace": True,
                                       "fault": {"stage": "write_gro", "pos": pos, "exc": "RuntimeError"}})
+                for odd in ("dotdot", "symlink"):
+                    cases.append({"program": program, "input": inp, "fault": None, "prior": prior, "rng": seed,
+                                  "odd_path": odd})
                 # fault-free runs whose output name has another ending, or none
                 for suffix in (".v2", "", ".top"):
                     cases.append({"program": program, "input": inp, "fault": None, "prior": prior, "rng": seed,
@@ -297,6 +300,15 @@ def check(spec, ctx):
     if prior == "present_with_backups":
         (outdir / f"#result{suffix}.1#").write_bytes(b"backup one\n")
         (outdir / f"#result{suffix}.2#").write_bytes(b"backup two\n")
+    target_arg = target
+    if spec.get("odd_path"):
+        # the same output file named through a detour ("sub/../result.itp") or through a symbolic link to the directory
+        (outdir / "sub").mkdir()
+        if spec["odd_path"] == "dotdot":
+            target_arg = outdir / "sub" / ".." / target.name
+        else:
+            (ctx.dir / "outlink").symlink_to(outdir, target_is_directory=True)
+            target_arg = ctx.dir / "outlink" / target.name
     before = snapshot(outdir)
     state = {"reached": False}
     undo = install_fault(program, fault, state) if fault else (lambda: None)
@@ -309,13 +321,13 @@ def check(spec, ctx):
             kwargs = gp.write_inputs(gspec, indir)
             if spec["input"] == 1:
                 kwargs["dsdna"] = False
-            gen_params(outpath=target, **kwargs)
+            gen_params(outpath=target_arg, **kwargs)
         elif program == "gen_coords":
             import polyply.src.gen_coords as gcm
             cspec = gen_coords_input(spec["input"], natural)
             top = indir / "system.top"
             top.write_text(gc.render_top(cspec))
-            kwargs = {"toppath": top, "outpath": target, "name": "test", "box": np.array(cspec["opts"]["box"])}
+            kwargs = {"toppath": top, "outpath": target_arg, "name": "test", "box": np.array(cspec["opts"]["box"])}
             if cspec["build"]:
                 (indir / "b.bld").write_text("\n".join(cspec["build"]) + "\n")
                 kwargs["build"] = [indir / "b.bld"]
@@ -340,7 +352,7 @@ def check(spec, ctx):
         else:
             from polyply.src.gen_seq import gen_seq
             sspec = gen_seq_input(spec["input"], natural)
-            gen_seq(name="seq", outpath=target, seq=sspec["seq"], inpath=[], macro_strings=sspec["macro_strings"],
+            gen_seq(name="seq", outpath=target_arg, seq=sspec["seq"], inpath=[], macro_strings=sspec["macro_strings"],
                     from_file=None, connects=sspec["connects"], modifications=sspec["modifications"], tags=sspec["tags"])
     except Inconclusive:
         raise
